@@ -4,13 +4,14 @@ export GOFLAGS=-mod=mod GOPROXY=off GOSUMDB=off GOTOOLCHAIN=local; unset GOWORK
 (cd /verif/checker && go build -o /verif/bin/dstverif ./cmd/dstverif) || exit 1
 echo "== unchanged tree"; /verif/tools/run_all.sh | grep -v "rc=0" ; echo "(done)"
 echo "== seeded"
+R=$(mktemp -d /tmp/rg.XXXXXX)
 for d in /verif/seeded/*/; do
   name=$(basename $d); props=$(python3 -c "import json;m=json.load(open('$d/meta.json'));print(' '.join([m['property']]+m.get('also_for',[])))")
-  rm -rf /tmp/rg && mkdir -p /tmp/rg/verif && rsync -a --exclude .git /repo/ /tmp/rg/repo/ && cp /verif/known-findings.json /tmp/rg/verif/
-  if ! patch -p1 -s -f -d /tmp/rg/repo -i $d/patch.diff >/dev/null 2>&1; then echo "  $name: PATCH DOES NOT APPLY"; continue; fi
+  rm -rf $R && mkdir -p $R/verif && rsync -a --exclude .git /repo/ $R/repo/ && cp /verif/known-findings.json $R/verif/
+  if ! patch -p1 -s -f -d $R/repo -i $d/patch.diff >/dev/null 2>&1; then echo "  $name: PATCH DOES NOT APPLY"; continue; fi
   res=""
   for p in $props; do
-    DSTVERIF_REPO=/tmp/rg/repo DSTVERIF_DIR=/tmp/rg/verif /verif/bin/dstverif -prop $p > /tmp/rg/$p.log 2>&1; rc=$?
+    DSTVERIF_REPO=$R/repo DSTVERIF_DIR=$R/verif /verif/bin/dstverif -prop $p > $R/$p.log 2>&1; rc=$?
     res="$res $p=$rc"
   done
   echo "  $name:$res"
@@ -18,4 +19,4 @@ done
 if [ "$1" != "nobenign" ]; then
 echo "== benign"; /verif/tools/benign_eval.sh /verif/benign/*/benign-*.diff 2>&1 | grep "^==" | sed 's#/verif/benign/##'
 fi
-rm -rf /tmp/rg
+rm -rf $R
